@@ -794,7 +794,7 @@ def _trie_shard(ctx: Ctx, shard: int, nshards: int, plan: tuple) -> None:
                 ops = [list(letters[i]) for i in word]
                 execute_trie(ctx, {"kind": "trie", "ops": ops, "probes": probes},
                              descriptor=(maxlen << 58) | (d << 52) | idx)
-        ctx.note("trie_exhaustive_keys<=%d_depth" % maxlen, depth)
+        ctx.note("trie_exhaustive_keys<=%d" % maxlen, "all words to depth %d" % depth)
 
 
 def _trie_random_shard(ctx: Ctx, shard: int, nshards: int, n: int, maxlen: int) -> None:
